@@ -12,6 +12,13 @@
 //   dbs and=|or=|xor= <n> <m> ; shl=|shr= <n> <k>                     -> state line of <n>
 //   dbs and|or|xor <n> <m> <d> ; shl|shr <n> <k> <d> ; not <n> <d> ; copy <n> <d> -> state line of <d>
 //   dbs fwd|rev <n>             range-for / rbegin..rend, both the non-const and the const flavour -> ok 1,3,5
+//   dbs it|rit <n> <script>     a walk of one (reverse) iterator: script = [e] then any of + - p m
+//                               (e: start at end()/rend() instead of begin()/rbegin(); + pre-increment, - pre-decrement,
+//                               p post-increment, m post-decrement), both flavours -> ok 3,3/1,E,E/E
+//                               (position after each operation, `copy/position` for the post forms, E = end()/rend())
+//   dbs strc <n> <zero> <one>   to_string< char>( zero, one)                -> ok <string>
+//   dbs newbs <n> <bits>        DynamicBitset( std::bitset< N>) with N = number of bits given -> state line
+//   dbs asgbs <n> <bits>        <n> = std::bitset< N>                       -> state line
 // numbers may be symbolic (@size, @size-1, @size+1, @size*2, @size*3; relative to <n>).
 // state line: ok size= bits= str= count= any= none= all= ulong=
 //
@@ -21,6 +28,7 @@
 // operation must leave `pos < size()` (libstdc++'s vector<bool>::operator[] is unchecked, so
 // anything else indexed outside the vector), iteration must give the set positions.
 #include "common.hpp"
+#include <bitset>
 #include <map>
 #include "celma/container/dynamic_bitset.hpp"
 
@@ -118,6 +126,57 @@ template <class B> static std::string iterRev(B& d, std::vector<size_t>& out) {
    });
 }
 
+// ---- iterator walks ---------------------------------------------------------
+// `rev` selects the reverse iterator; positions are kept as ssize_t in the shadow (-1 = rend(), size = end())
+template <class B, class It> static std::string walk(B& d, It it, const It last, bool rev, bool fromEnd, const std::string& script,
+                                                     std::string& bad) {
+   const ssize_t size = static_cast<ssize_t>(d.size());
+   auto nextSet = [&](ssize_t c) { for (ssize_t j = c + 1; j < size; ++j) if (d.test(j)) return j; return size; };
+   auto prevSet = [&](ssize_t c) { for (ssize_t j = c - 1; j >= 0; --j) if (d.test(j)) return j; return ssize_t(-1); };
+   auto show = [&](const It& i) { return i == last ? std::string("E") : std::to_string(*i); };
+   auto showS = [&](ssize_t c) { return c == (rev ? -1 : size) ? std::string("E") : std::to_string(c); };
+   // shadow start: begin() = first set position or end(); rbegin() = last set position or rend()
+   ssize_t cur = fromEnd ? (rev ? -1 : size) : (rev ? prevSet(size) : nextSet(-1));
+   if (show(it) != showS(cur)) bad = "start position " + show(it) + " instead of " + showS(cur);
+   std::string out;
+   for (char c : script) {
+      const ssize_t before = cur;
+      const bool up = (c == '+' || c == 'p');
+      if (!rev) {   // forward iterator: ++ = next set bit (stays at end()), -- = previous set bit, else end()
+         if (up) cur = cur == size ? size : nextSet(cur);
+         else { cur = prevSet(cur); if (cur < 0) cur = size; }
+      } else {      // reverse iterator: ++ = previous set bit (stays at rend()), -- = next set bit, else rend(); --rend() stays
+         if (up) cur = cur < 0 ? -1 : prevSet(cur);
+         else if (cur >= 0) { cur = nextSet(cur); if (cur >= size) cur = -1; }
+      }
+      std::string tok, want;
+      if (c == '+') { ++it; tok = show(it); want = showS(cur); }
+      else if (c == '-') { --it; tok = show(it); want = showS(cur); }
+      else if (c == 'p') { It cp = it++; tok = show(cp) + "/" + show(it); want = showS(before) + "/" + showS(cur); }
+      else { It cp = it--; tok = show(cp) + "/" + show(it); want = showS(before) + "/" + showS(cur); }
+      if (bad.empty() && tok != want) bad = "after '" + std::string(1, c) + "': " + tok + " instead of " + want;
+      out += (out.empty() ? "" : ",") + tok;
+   }
+   return out.empty() ? "-" : out;
+}
+
+template <size_t N> static DynamicBitset fromBitset(const VB& v, DynamicBitset* assignTo) {
+   std::bitset<N> bs;
+   for (size_t i = 0; i < N; ++i) bs[i] = v[i];
+   if (assignTo) { *assignTo = bs; return *assignTo; }
+   return DynamicBitset(bs);
+}
+/// conversion from std::bitset< N>, N = v.size(); false when this N is not instantiated here
+static bool viaBitset(const VB& v, DynamicBitset* assignTo, DynamicBitset& out) {
+   switch (v.size()) {
+#define VH_BS(N) case N: out = fromBitset<N>(v, assignTo); return true;
+      VH_BS(0) VH_BS(1) VH_BS(2) VH_BS(3) VH_BS(4) VH_BS(5) VH_BS(6) VH_BS(7) VH_BS(8) VH_BS(9) VH_BS(16) VH_BS(31) VH_BS(32)
+      VH_BS(33) VH_BS(63) VH_BS(64) VH_BS(65) VH_BS(70) VH_BS(128)
+#undef VH_BS
+      default: return false;
+   }
+}
+
 static std::string step(const std::vector<std::string>& t) {
    if (t.size() == 2 && t[0] == "case") { objs.clear(); refs.clear(); return "ok"; }
    if (t.size() < 3 || t[0] != "dbs") return "bad-op";
@@ -127,6 +186,17 @@ static std::string step(const std::vector<std::string>& t) {
          for (char c : t[3]) { if (c != '0' && c != '1') return "bad-op"; v.push_back(c == '1'); }
       objs.erase(t[2]);
       objs.emplace(t[2], DynamicBitset(v));
+      refs[t[2]] = v;
+      return checked(objs.at(t[2]), v);
+   }
+   if (t[1] == "newbs" && t.size() == 4) {
+      VB v;
+      if (t[3] != "-")
+         for (char c : t[3]) { if (c != '0' && c != '1') return "bad-op"; v.push_back(c == '1'); }
+      DynamicBitset made(0);
+      if (!viaBitset(v, nullptr, made)) return "bad-op";
+      objs.erase(t[2]);
+      objs.emplace(t[2], made);
       refs[t[2]] = v;
       return checked(objs.at(t[2]), v);
    }
@@ -251,6 +321,42 @@ static std::string step(const std::vector<std::string>& t) {
    }
    if (op == "not" && na == 1) { VB rv = r; rv.flip(); DynamicBitset n = ~cd; return put(t[3], n, rv); }
    if (op == "copy" && na == 1) { VB rv = r; DynamicBitset n(cd); return put(t[3], n, rv); }
+   if (op == "asgbs" && na == 1) {
+      VB v;
+      if (t[3] != "-")
+         for (char c : t[3]) { if (c != '0' && c != '1') return "bad-op"; v.push_back(c == '1'); }
+      DynamicBitset res(0);
+      if (!viaBitset(v, &d, res)) return "bad-op";
+      r = v;
+      return resync(checked(d, r));
+   }
+   if (op == "strc" && na == 2) {
+      if (t[3].size() != 1 || t[4].size() != 1) return "bad-op";
+      std::string str = cd.to_string<char>(t[3][0], t[4][0]);
+      std::string want;
+      for (size_t i = r.size(); i-- > 0;) want += r[i] ? t[4][0] : t[3][0];
+      std::string line = "ok " + (str.empty() ? std::string("-") : str);
+      if (str != want) return "!! to_string( zero, one) differs from the reference " + want + "; " + line;
+      return line;
+   }
+   if ((op == "it" || op == "rit") && na == 1) {
+      std::string script = t[3];
+      bool fromEnd = !script.empty() && script[0] == 'e';
+      if (fromEnd) script = script.substr(1);
+      if (script.find_first_not_of("+-pm") != std::string::npos) return "bad-op";
+      std::string a, b, bad1, bad2;
+      std::string e1 = vh::guarded([&] {
+         a = op == "it" ? walk(d, fromEnd ? d.end() : d.begin(), d.end(), false, fromEnd, script, bad1)
+                        : walk(d, fromEnd ? d.rend() : d.rbegin(), d.rend(), true, fromEnd, script, bad1); });
+      std::string e2 = vh::guarded([&] {
+         b = op == "it" ? walk(cd, fromEnd ? cd.end() : cd.begin(), cd.end(), false, fromEnd, script, bad2)
+                        : walk(cd, fromEnd ? cd.rend() : cd.rbegin(), cd.rend(), true, fromEnd, script, bad2); });
+      if (!e1.empty() || !e2.empty()) return "!! iterator walk throws; " + (e1.empty() ? e2 : e1);
+      std::string line = "ok " + a;
+      if (a != b) return "!! const and non-const iterator walks differ (" + b + "); " + line;
+      if (!bad1.empty()) return "!! iterator walk: " + bad1 + "; " + line;
+      return line;
+   }
    if ((op == "fwd" || op == "rev") && na == 0) {
       std::vector<size_t> a, b, want;
       std::string e1 = op == "fwd" ? iterFwd(d, a) : iterRev(d, a);
